@@ -81,6 +81,10 @@ def mask_features(repo, fn):
 
 def check(ctx):
     repo = ctx.repo
+    from . import generic
+    generic.cross_column_promotion(ctx, [repo.fn(f"{DF}.unique")], "unique keeps one row per distinct combination of key values")
+    generic.order_by_difference(ctx, generic.module_functions(repo, "dataiter.data_frame"),
+                                "unique keeps the first row of every distinct key combination")
     ctx.rule("IDX-1", "one loop-invariant row index for all yielded columns, expected keep/drop operator")
     ctx.rule("SIB-1", "filter / filter_out: identical mask construction, complementary operators")
     ctx.rule("SIB-2", "drop_na: '|' accumulation of is_na over all named columns, fed to filter_out")
